@@ -3,8 +3,7 @@ import Driver
 Line protocol driver: `op<TAB>arg…` per line in, one line out.
 Each model area contributes an `ops` table; unknown operations answer `bad-op`.
 -/
-def allOps : List (String × (List String → String)) :=
-  DriverVer.ops ++ DriverRx.ops ++ DriverNames.ops
+def allOps : List (String × (List String → String)) := allDriverOps
 
 def dispatch (line : String) : String :=
   match line.splitOn "\t" with
